@@ -27,5 +27,11 @@ MCNext == \/ Start
                 \/ \E pos \in 1..2, v \in VsVals : InternVs(pos, v) /\ Emit([op |-> "vs", a |-> pos, b |-> v])
                 \/ \E pos \in 1..2, r \in RecVals : InternSolvable(pos, r) /\ Emit([op |-> "solvable", a |-> pos, b |-> r])
                 \/ \E a \in 1..2, b \in 1..2 : InternUnion(a, b) /\ Emit([op |-> "union", a |-> a, b |-> b])
+                \* unions of one, three and four members (the three representations of the
+                \* small vector behind a union); the driver hands the members over through
+                \* an iterator that knows its length (b = 1) or one that does not (b = 2)
+                \/ \E a \in 1..2, it \in 1..2 : InternUnionSeq(<<a>>) /\ Emit([op |-> "union1", a |-> a, b |-> it])
+                \/ \E a \in 1..2, it \in 1..2 : InternUnionSeq(<<a, 3 - a, a>>) /\ Emit([op |-> "union3", a |-> a, b |-> it])
+                \/ \E a \in 1..2, it \in 1..2 : InternUnionSeq(<<a, a, 3 - a, a>>) /\ Emit([op |-> "union4", a |-> a, b |-> it])
 MCSpec == MCInit /\ [][MCNext]_<<vars, started>>
 =============================================================================
